@@ -21,7 +21,7 @@ TABLE = os.path.join(os.path.dirname(os.path.dirname(os.path.abspath(__file__)))
 
 # never inlined: constructors of statuses (labels are normalised on them), storage / state accessors (named primitives of the
 # description), logging helpers
-DEFAULT_OPAQUE = re.compile(r'^(Status::|StatusCode::|<StatusCode as |<Status as |Storage::|<Storage as |<StorageWithChainData as |print_|trace_|Peers::get_|Peers::matched_blocks$|PeerState::get_|ProveState::get_|ProveRequest::get_|LastState::|LightClientProtocol::(peers|last_n_blocks|mmr_activated_epoch_number|get_peer_state)$|FilterProtocol::(peers|storage)$)')
+DEFAULT_OPAQUE = re.compile(r'^(Batch::|Status::|StatusCode::|<StatusCode as |<Status as |Storage::|<Storage as |<StorageWithChainData as |print_|trace_|Peers::get_|Peers::matched_blocks$|PeerState::get_|ProveState::get_|ProveRequest::get_|LastState::|LightClientProtocol::(peers|last_n_blocks|mmr_activated_epoch_number|get_peer_state)$|FilterProtocol::(peers|storage)$)')
 
 
 def _has_logic(body):
@@ -48,9 +48,9 @@ def inlined(prog, body, extra_opaque=(), max_callee_blocks=220):
     return inline(prog, body, max_depth=5, max_blocks=2500, only=only)
 
 
-def compute(prog, name, extra_opaque=(), effects=False):
+def compute(prog, name, extra_opaque=(), effects=False, sinks=None):
     b = inlined(prog, prog.body(name), extra_opaque)
-    ex = Exits(prog, b, effects=effects).census()
+    ex = Exits(prog, b, effects=effects, sinks=sinks).census()
     out = []
     for e in ex:
         out.append({'cls': e['cls'], 'label': e['label'], 'trigger': e['trigger'], 'atoms': e['atoms'], 'full': e['full'], 'span': str(e['span'])})
@@ -117,7 +117,7 @@ def check(ctx, rule, name):
         raise Inconclusive('census table has no entry for %s' % name)
     ent = table[name]
     ctx.fn(ctx.prog.body(name))
-    actual, inl = compute(ctx.prog, name, tuple(ent.get('opaque', ())), bool(ent.get('effects')))
+    actual, inl = compute(ctx.prog, name, tuple(ent.get('opaque', ())), bool(ent.get('effects')), ent.get('sinks'))
     for g in set(inl):
         ctx.functions.add(g)
     n = 0
